@@ -68,6 +68,25 @@ chk("C19", "exploration", GEN + ": reference interpreter with the documented inp
     "Every seed x partial_eval over every subset of control arguments and every value tuple of the control domain (keyword and positional), transpose of every 2-D argument (transposed store in / transposed result out), add_assertion over the condition alphabet (domain narrowing exactly), rename, make_instr, set_precision/memory/window on every buffer x value, parallelize_loop on every loop.",
     "sizes 1..3, index args -1..2", "DESIGN.md §3 C19")
 
+chk("C03", "exploration", GEN + ": every accepted program executed by the reference interpreter with all safety monitors on its whole control domain x 4 window layouts",
+    "Full products of the front-end families (access offset x loop bounds x guard x {direct, window, window of window, callee window/tensor parameter} x {write, read, reduce}; window extents/points x access; callee size expressions x assertions; shape, stride-assertion and aliasing variants; loop-bound pairs) plus the back-end families go through the real @proc; any out-of-bounds access (view or backing store), violated callee assertion, non-positive size argument, shape mismatch, aliased call arguments or negative loop range in an accepted program is a violation.",
+    "interpreter monitors are trusted; sizes up to 4 (quick) / 6 (thorough)", "DESIGN.md §3 C03")
+chk("C05", "model_checking", EXPL + ": equivalence with the callee executed from its body, call-site monitors, inline-back equivalence",
+    "Exploration (depth 2 / 3) from the seven call seeds (kernels with transposed / strided / offset / guarded / reduction access patterns x callees with window, size, index, bool and stride-assert parameters): replace on every block of length 1..3 with every candidate, replace_all, replace_all_stmts, inline, divide_loop, reorder_loops in between.",
+    "state cap per level reported in the evidence", "DESIGN.md §3 C05")
+chk("C09", "exploration", GEN + ": per-iteration conflict sets and all iteration permutations in the reference interpreter for every procedure the back end compiles",
+    "A 14-statement dependence alphabet (singles and pairs) under `par` at six positions (top, inside seq, inside if, inside par, seq inside par, inside a callee) and parallelize_loop on every loop of every seed; when compile_procs_to_strings succeeds no two iterations may conflict (write/reduce vs read/write/reduce, reduce/reduce included) on any input and every permutation of <= 3 iterations must give the sequential result.",
+    "OpenMP itself is not executed; interleavings within an iteration are covered by the conflict-set oracle", "DESIGN.md §3 C09")
+chk("C14", "exploration", GEN + ": compiled wrapper (real back end + gcc) vs reference interpreter running the instruction's Exo body",
+    "All 60 @instr procedures of exo.platforms.x86 (59 executable on this host: AVX2, FMA, AVX-512F/BW/VL) get an automatically generated wrapper: DRAM operands as windows at offsets 0..2 of a larger buffer, register operands loaded from / stored to DRAM around the call, every size/mask/bound argument admitted by the assertions (1..16), two lane-distinct exact data patterns.",
+    "register load/store instructions are themselves among the instructions under test; values are small exact integers (integer precisions compare after truncation)", "DESIGN.md §3 C14")
+chk("C15", "exploration", GEN + ": literal consistency predicate over the annotation grid + gcc acceptance of emitted C",
+    "Skeletons {mixed expression, precision across a call via tensor/window/scalar parameter, memory across a call at depth 1-2 for arguments and allocations, window-ness, direct access to a register memory} x every assignment over 4 precisions / 4 memories / window-ness, written in source and reached via set_precision / set_memory / set_window: inconsistent => compile must raise; consistent => compile succeeds and gcc -Wall -Werror=incompatible-pointer-types accepts .c/.h; plus gcc acceptance of the C of every seed and family program.",
+    "gcc is the reference for 'valid C'", "DESIGN.md §3 C15")
+chk("C18", "exploration", "fresh-interpreter executions of scripted sessions over a grid of hash seeds, symbol-counter offsets, prior histories, definition orders and salted Sym/proc hashing; byte comparison",
+    "8 sessions (several window structs/configs/externs/memories, tiling+staging schedule, unroll_buffer+replace_all+extract_subproc, many free variables, x86 instructions, two procedures sharing callees, blur schedule with specialize) x 21 variants (each axis exhaustively around the default + pairwise corners; thorough: full 384-variant product): printed procedures, C and header must be byte-identical.",
+    "the hash-seed axis is a finite sample; salted hashing owns the iteration order of Sym/proc keyed sets", "DESIGN.md §3 C18")
+
 ALL = [f"C{i:02d}" for i in range(1, 20)]
 PENDING_REASON = "check under construction in this session (design in DESIGN.md §3); not claimed until it runs silently on the unchanged tree"
 def main():
